@@ -45,6 +45,12 @@ def hasValue {α} (a : AN α) : Bool :=
   match a with
   | .value _ => true
   | _ => false
+
+/-- `is_present`: written on the document, with a value or with an explicit `null`. -/
+def isPresent {α} (a : AN α) : Bool :=
+  match a with
+  | .absent => false
+  | _ => true
 end AN
 
 def CondS.unserialize (c : CondS) : D Cond :=
@@ -80,86 +86,93 @@ mutual
     | f :: fs => passDownFile k f :: passDownFiles k fs
 end
 
+/-- path and kind of a file entry (the kind is guessed from the path when not given). -/
+def pathKindR (path : AN Str) (kindA : AN FileKind) : D (Str × FileKind) :=
+  match kindA.nonNullNoDefault with
+  | .error e => .error e
+  | .ok (some k) =>
+    if k = .object ∨ k = .archive then
+      match path.get with
+      | .error e => .error e
+      | .ok p => if p = [] then .error .emptyValue else .ok (p, k)
+    else if path.isPresent then .error .invalidFieldCombo else .ok ([], k)
+  | .ok none =>
+    match path.get with
+    | .error e => .error e
+    | .ok p => if p = [] then .error .emptyValue else .ok (p, kindFromPath p)
+
+def subfileR (kind : FileKind) (subfile : AN Str) : D Str :=
+  if kind = .archive then subfile.nonNull c!"*"
+  else if subfile.isPresent then .error .invalidFieldCombo else .ok c!"*"
+
+def padR (kind : FileKind) (padAmount : AN Nat) : D Nat :=
+  if kind = .pad then padAmount.get
+  else if padAmount.isPresent then .error .invalidFieldCombo else .ok 0
+
+def sectR (kind : FileKind) (sect : AN Str) : D Str :=
+  if kind = .pad ∨ kind = .linkerOffset then sect.get
+  else if sect.isPresent then .error .invalidFieldCombo else .ok []
+
+def loR (kind : FileKind) (lo : AN Str) : D Str :=
+  if kind = .linkerOffset then lo.get
+  else if lo.isPresent then .error .invalidFieldCombo else .ok []
+
+def soR (kind : FileKind) (so : AN (List (Str × Str))) : D (List (Str × Str)) :=
+  if kind = .object ∨ kind = .archive then so.nonNull []
+  else if so.isPresent then .error .invalidFieldCombo else .ok []
+
 /-- first half of `FileInfoSerial::unserialize`: path and kind, then `subfile`, `pad_amount`,
 `section`, `linker_offset_name`, `section_order`, each required / optional / forbidden by the kind. -/
 def filePre (path : AN Str) (kindA : AN FileKind) (subfile : AN Str) (padAmount : AN Nat)
     (sect : AN Str) (lo : AN Str) (so : AN (List (Str × Str))) :
     D (Str × FileKind × Str × Nat × Str × Str × List (Str × Str)) :=
-  match kindA.nonNullNoDefault with
+  match pathKindR path kindA with
   | .error e => .error e
-  | .ok kindO =>
-    let pk : D (Str × FileKind) :=
-      match kindO with
-      | some k =>
-        if k = .object ∨ k = .archive then
-          match path.get with
-          | .error e => .error e
-          | .ok p => if p = [] then .error .emptyValue else .ok (p, k)
-        else if path.hasValue then .error .invalidFieldCombo else .ok ([], k)
-      | none =>
-        match path.get with
-        | .error e => .error e
-        | .ok p => if p = [] then .error .emptyValue else .ok (p, kindFromPath p)
-    match pk with
+  | .ok (p, kind) =>
+    match subfileR kind subfile with
     | .error e => .error e
-    | .ok (p, kind) =>
-      let subfileR : D Str :=
-        if kind = .archive then subfile.nonNull c!"*"
-        else if subfile.hasValue then .error .invalidFieldCombo else .ok c!"*"
-      match subfileR with
+    | .ok sf =>
+      match padR kind padAmount with
       | .error e => .error e
-      | .ok sf =>
-        let padR : D Nat :=
-          if kind = .pad then padAmount.get
-          else if padAmount.hasValue then .error .invalidFieldCombo else .ok 0
-        match padR with
+      | .ok pa =>
+        match sectR kind sect with
         | .error e => .error e
-        | .ok pa =>
-          let sectR : D Str :=
-            if kind = .pad ∨ kind = .linkerOffset then sect.get
-            else if sect.hasValue then .error .invalidFieldCombo else .ok []
-          match sectR with
+        | .ok se =>
+          match loR kind lo with
           | .error e => .error e
-          | .ok se =>
-            let loR : D Str :=
-              if kind = .linkerOffset then lo.get
-              else if lo.hasValue then .error .invalidFieldCombo else .ok []
-            match loR with
+          | .ok lon =>
+            match soR kind so with
             | .error e => .error e
-            | .ok lon =>
-              let soR : D (List (Str × Str)) :=
-                if kind = .object ∨ kind = .archive then so.nonNull []
-                else if so.hasValue then .error .invalidFieldCombo else .ok []
-              match soR with
-              | .error e => .error e
-              | .ok sord => .ok (p, kind, sf, pa, se, lon, sord)
+            | .ok sord => .ok (p, kind, sf, pa, se, lon, sord)
+
+def dirR (kind : FileKind) (dir : AN Str) : D Str :=
+  if kind = .group then dir.nonNull []
+  else if dir.isPresent then .error .invalidFieldCombo else .ok []
 
 /-- last part of `FileInfoSerial::unserialize`: `dir` and the four condition lists. -/
 def filePost (kind : FileKind) (dir : AN Str) (c : CondS) : D (Str × Cond) :=
-  let dirR : D Str :=
-    if kind = .group then dir.nonNull []
-    else if dir.hasValue then .error .invalidFieldCombo else .ok []
-  match dirR with
+  match dirR kind dir with
   | .error e => .error e
   | .ok dr =>
     match c.unserialize with
     | .error e => .error e
     | .ok cond => .ok (dr, cond)
 
+def filesR {α} (kind : FileKind) (filesHas filesPresent : Bool) (children : D (List α)) : D (List α) :=
+  if kind = .group then
+    (if filesHas then children else .error .missingRequiredField)
+  else if filesPresent then .error .invalidFieldCombo else .ok []
+
 /-- the kind-specific field rules of `FileInfoSerial::unserialize`, for an already decoded
 list of children. `pass = true` is the code; `pass = false` omits the three `keep_sections`
 push-down passes (used to state C14: the passes compute the nearest explicit ancestor). -/
 def fileFields (pass : Bool) (path : AN Str) (kindA : AN FileKind) (subfile : AN Str) (padAmount : AN Nat)
-    (sect : AN Str) (lo : AN Str) (so : AN (List (Str × Str))) (filesHas : Bool)
+    (sect : AN Str) (lo : AN Str) (so : AN (List (Str × Str))) (filesHas filesPresent : Bool)
     (children : D (List FileInfo)) (dir : AN Str) (c : CondS) (keep : Keep) : D FileInfo :=
   match filePre path kindA subfile padAmount sect lo so with
   | .error e => .error e
   | .ok (p, kind, sf, pa, se, lon, sord) =>
-    let filesR : D (List FileInfo) :=
-      if kind = .group then
-        (if filesHas then children else .error .missingRequiredField)
-      else if filesHas then .error .invalidFieldCombo else .ok []
-    match filesR with
+    match filesR kind filesHas filesPresent children with
     | .error e => .error e
     | .ok fs =>
       match filePost kind dir c with
@@ -174,7 +187,7 @@ mutual
   in the group arm only). -/
   def FileS.unserialize (pass : Bool) : FileS → D FileInfo
     | .mk path kindA subfile padAmount sect lo so files dir c keep =>
-      fileFields pass path kindA subfile padAmount sect lo so (AN.hasValue files)
+      fileFields pass path kindA subfile padAmount sect lo so (AN.hasValue files) (AN.isPresent files)
         (match files with
          | .value l => FileS.unserializeList pass l
          | _ => .ok [])
